@@ -47,6 +47,20 @@ def main(nq, ne, maxlen, out):
     for n in range(maxlen + 1):
         for s in itertools.product('abc', repeat=n):
             rows.append({'t': 'seq', 's': list(s), 'out': list(unique_in_order(list(s)))})
+    # sequences over pairwise UNEQUAL elements of which some share a hash value (hash(-1) == hash(-2), hash(2**61 - 1) == hash(0) in
+    # CPython): de-duplication is by equality, so none of them may be dropped. Rows carry alphabet positions as strings (TLC integers are 32 bit; a TLC set cannot mix sequences of strings and of integers).
+    alphabet = [-1, -2, 0, 2 ** 61 - 1, 1]
+    for n in range(min(maxlen, 4) + 1):
+        for s in itertools.product(range(len(alphabet)), repeat=n):
+            o = unique_in_order([alphabet[j] for j in s])
+            rows.append({'t': 'seq', 's': ['i%d' % j for j in s], 'out': ['i%d' % alphabet.index(x) for x in o]})
+    # the same through channel identifiers whose qubit indices share a hash value
+    for s in itertools.product([(-1, 'FLUX'), (-2, 'FLUX'), (0, 'FLUX'), (-1, 'MICROWAVE')], repeat=3):
+        try:
+            o = unique_in_order([mk(c) for c in s])
+            rows.append({'t': 'chanseq', 's': [list(c) for c in s], 'out': [[c.id, c.channel.name] for c in o]})
+        except TypeError:
+            rows.append({'t': 'chanseq', 's': [list(c) for c in s], 'out': [["unhashable", ""]]})
     # de-duplication of exactly-equal channel identifiers (distinct objects, equal values)
     import random
     rnd = random.Random(int(sys.argv[5]) if len(sys.argv) > 5 else 1)
